@@ -816,7 +816,10 @@ def wedge_swap(vals, ra, rb, rw1, rw2):
     ab = v(a[1]) * v(b[1])
     if abs(v(w1[1]) - v(w2[1])) > 2 * ab * (TOL + 16 * EPS) + mp.mpf(5e-324) * 8: return 'swapped wedge magnitudes differ'
     s = mp.sin(direction(_A(b)) - direction(_A(a)))
-    if abs(s) > mp.mpf('3e-10') and abs(w1[3] - w2[3]) != 2:
+    dlt = direction(_A(b)) - direction(_A(a))
+    fr1 = dlt / HALF - mp.floor(dlt / HALF); fr2 = (-dlt) / HALF - mp.floor((-dlt) / HALF)
+    snap_zone = (1 - fr1) * HALF < 2 * TOL or (1 - fr2) * HALF < 2 * TOL      # either difference just below a quarter-turn boundary
+    if (abs(s) > mp.mpf('3e-10') or (not snap_zone and abs(s) > mp.mpf('1e-13'))) and abs(w1[3] - w2[3]) != 2:
         return 'swapping the operands turned the wedge by %d blades, expected exactly 2' % abs(w1[3] - w2[3])
     return None
 
@@ -845,7 +848,9 @@ def project_struct(vals, ra, rb, rp):
     same = (p[2], p[3]) == (b[2], b[3])
     turned = (p[3] == b[3] + 2 and v(p[2]) == v(b[2]))
     if not (same or turned): return "projection angle %r is neither b's angle %r nor b's angle plus pi" % (_A(p), _A(b))
-    if abs(c) > mp.mpf('3e-10') and ((c > 0) != same): return 'projection sign: cos = %s but angle %s' % (mp.nstr(c, 5), "b's" if same else "b's + pi")
+    # the sign of the cosine survives the library's 1e-10 snap on both sides of its zeros (the snapped quarter-turn
+    # angles have cosines of the same sign as their lower neighbours), so it is enforced down to rounding level
+    if abs(c) > mp.mpf('1e-13') and ((c > 0) != same): return 'projection sign: cos = %s but angle %s' % (mp.nstr(c, 5), "b's" if same else "b's + pi")
     return None
 
 @pred
